@@ -46,10 +46,10 @@ def line(ops, cfg="-"):
 def gen_relay():
     retries = ["n1", "0", "2"]
     autos = ["n1", "0", "5000"]
-    for r in retries:
-        for a in autos:
-            cls = "pull-r%s-a%s" % (r, a)
-            sp = "spull.1.%s.%s" % (r, a)
+    for r, a, proto in [(r, a, "") for r in retries for a in autos] + [("n1", "n1", ".rtsp"), ("0", "0", ".rtsp"), ("2", "5000", ".rtsp")]:
+        if True:
+            cls = "pull-r%s-a%s%s" % (r, a, proto.replace(".", "-"))
+            sp = "spull.1.%s.%s%s" % (r, a, proto)
             # failures until the budget is exhausted (no consumer)
             yield Case(line([sp, "pfail.1.0", "tick.1", "pfail.1.0", "tick.2", "pfail.1.0", "tick.3", "pfail.1.0", "tick.4", "tick.5"]), cls=cls)
             # with a consumer all along
@@ -95,7 +95,7 @@ def rand_relay(rng, n_ops):
     for _ in range(n_ops):
         r = rng.random()
         if r < 0.18:
-            ops.append("spull.1.%s.%s" % (rng.choice(["n1", "0", "1", "2"]), rng.choice(["n1", "0", "5000"])))
+            ops.append("spull.1.%s.%s%s" % (rng.choice(["n1", "0", "1", "2"]), rng.choice(["n1", "0", "5000"]), rng.choice(["", "", ".rtsp"])))
         elif r < 0.42:
             ops.append("%s.1.0" % rng.choice(["psucc", "pfail", "pdone", "psucc", "pfail"]))
         elif r < 0.50:
